@@ -43,12 +43,13 @@ CLAIMS = {
         "design": "DESIGN.md section 4, C10",
     },
     "C19": {
-        "text": "E2 kernel: the name regular expression is read from the AST and its Python-semantics language is proved equal to the identifier-like language in the regex theory "
-                "(unbounded; z3 5.1, z3 4.8.12 and cvc5 agree). CrossHair queries: path validation over symbolic strings, value kinds, every creation mode x template working_dir x pair "
+        "text": "E2 kernel: the name regular expression (literal or compiled module-level pattern, with its flags) is read from the AST, parsed by re._parser, its single-character sets are computed "
+                "with the real engine for every code point <= U+2FFFF, and its Python-semantics language is proved equal to the identifier-like language in the regex theory "
+                "(unbounded length; z3 5.1, z3 4.8.12 and cvc5 agree). CrossHair queries: path validation over symbolic strings, value kinds, every creation mode x template working_dir x pair "
                 "of invoking directories (os.getcwd interposed) gives identical absolute paths and cd target, cli.main/find_workflow from a symbolic nesting depth reach the same project "
                 "and state directory, map names distinct/valid/deterministic.",
         "note": "Bound: path strings <= 1 symbolic character over U+0000..U+00FF (quick), catalogues of value kinds, 4 invoking directories, 7 template working_dir forms, <= 4 map items. "
-                "Lexical normalisation only (no symlinks); click parsing and entry-point discovery outside.",
+                "Workflow files of six names loaded from three invoking directories (real temporary files). Lexical normalisation only; click parsing and entry-point discovery outside.",
         "design": "DESIGN.md section 4, C19",
     },
     "C20": {
